@@ -414,5 +414,7 @@ pub fn run(p: &Params) -> Run {
     run.notes.push("tables t(k TEXT, v INT, w INT, r REAL, s TEXT) and u(k TEXT, v INT, y TEXT, r REAL): k, v, r clash; join keys TEXT/INT/REAL/mismatched types, 5-60% NULL fields, 0-13 lines per side over 5 key values, 1-3 input files; ON in both orders; INNER/OUTER; plain projections (aliased), *, WHERE, aggregates, DISTINCT, LIMIT; one case in eight with an unknown join column or a missing joined file".to_owned());
     run.notes.push("self-join block: t joined with itself through a second file on two different (or the same) columns, INNER/OUTER; projections of t.col (joined row) and col (queried row), *, WHERE / aggregates / DISTINCT on qualified names; nested-loop oracle for projections and *, Lean spec + model for all".to_owned());
     run.notes.push("oracle: independent nested loop (Rust) for plain projections and *; the Lean nested-loop specification answers every case without LIMIT (three-way comparison); ON-side swap compared on every third case".to_owned());
+    // the end-to-end stream: the same property seen from raw texts and raw file bytes (`e2e.rs`, Lean `Pipeline.runText`)
+    crate::e2e::stream(&mut run, &mut Rng::new(p.seed ^ 0xe2e05), p.n(250, 3000), "join");
     run
 }
